@@ -822,6 +822,15 @@ func (m *Monitor) respRefresh(r *mReq, msg *stun.Message, ok bool, code int, I i
 	}
 	if life == 0 {
 		m.M.EndAlloc(a, I, "refresh0")
+		if len(poss) == 1 && a.End != nil {
+			// The handler removes the allocation and then answers: the success response is
+			// proof that the removal is complete, whoever is parked wherever. (With two
+			// allocations possibly alive on the 5-tuple the wire does not say which one it was.)
+			if a.End.Hi > I.Hi {
+				a.End.Hi = I.Hi
+			}
+			a.EndFirm = true
+		}
 		return
 	}
 	if a.End != nil && a.EndCause == "expiry" && a.End.Hi <= I.Hi && a.End.Hi < I.Lo+int64(life)*1e9 {
@@ -1302,7 +1311,11 @@ func (m *Monitor) forward(to string, isChan bool, num uint16, peer string, paylo
 		}
 		switch reason {
 		case "peer-address-differs", "number-not-bound-to-sender":
-			m.v([]string{"C05", "C02"}, "misattributed", kv("form", form), "datagram from %s forwarded to %s as coming from %s (chan 0x%04x): %s", i.From, to, peer, num, reason)
+			props := []string{"C05", "C02"}
+			if isChan {
+				props = append(props, "C08") // a number emitted for a peer it is not bound to
+			}
+			m.v(props, "misattributed", kv("form", form), "datagram from %s forwarded to %s as coming from %s (chan 0x%04x): %s", i.From, to, peer, num, reason)
 		default:
 			props := []string{"C02"}
 			for _, a := range allocs {
